@@ -146,3 +146,42 @@ Definition retime (ov : amap N) (d : obs) : obs :=
     end
   else d.
 Definition view_t (s : tstate) : list obs := map (retime (ts_ov s)) (view_of (ts_map s)).
+
+(* ------------------------------------------------------------------------------------------
+   Extended attributes as the code writes them (own extension; AbsDest keeps one xattr list per
+   PATH, which is exact only for inodes with one name and for created directories).
+   rewriteMetadata sets the keys of the stat it is given and never removes a key:
+   * a directory whose metadata is rewritten in place keeps its old keys under the new ones;
+   * xattrs belong to the inode: a hard link made by this transfer stamps the xattrs of its stat
+     on the inode it links to, and every name of that inode shows the result.  In the map, the
+     names of one inode class carry either the list the inode had (the first name in path order,
+     when it stayed in place) or the list of the source; the inode shows the first overlaid by
+     the others. *)
+Definition xget (k : bytes) (xs : list (bytes * bytes)) : option (bytes * bytes) :=
+  find (fun kv => bytes_eqb (fst kv) k) xs.
+Definition xoverlay (old new : list (bytes * bytes)) : list (bytes * bytes) :=
+  new ++ filter (fun kv => match xget (fst kv) new with Some _ => false | None => true end) old.
+
+Definition group_xattrs (pred : list obs) (m : obs) : list (bytes * bytes) :=
+  let members := filter (fun x => N.eqb (o_ino x) (o_ino m) && negb (N.eqb (o_type x) S_IFDIR)) pred in
+  let first := fold_left (fun best x => if path_ltb (o_path x) (o_path best) then x else best) members m in
+  fold_left (fun acc x => xoverlay acc (o_xattrs x)) members (o_xattrs first).
+
+Definition with_xattrs (d : obs) (x : list (bytes * bytes)) : obs :=
+  {| o_path := o_path d; o_type := o_type d; o_perm := o_perm d; o_uid := o_uid d; o_gid := o_gid d;
+     o_mtime := o_mtime d; o_content := o_content d; o_target := o_target d; o_major := o_major d;
+     o_minor := o_minor d; o_ino := o_ino d; o_xattrs := x |}.
+
+Definition old_dir_xattrs (A : list AbsDest.entry) (p : bytes) : list (bytes * bytes) :=
+  match efind p A with
+  | Some (ps, _) => if st_is_dir ps then st_xattrs ps else []
+  | None => []
+  end.
+
+Definition rex (A : list AbsDest.entry) (pred : list obs) (m : obs) : obs :=
+  if N.eqb (o_type m) S_IFDIR then with_xattrs m (xoverlay (old_dir_xattrs A (o_path m)) (o_xattrs m))
+  else with_xattrs m (group_xattrs pred m).
+
+(* the predicted observation of the destination: AbsDest's map + directory mtimes + xattrs per inode *)
+Definition view_x (A : list AbsDest.entry) (s : tstate) : list obs :=
+  map (rex A (view_t s)) (view_t s).
